@@ -1,20 +1,7 @@
 //! fcmc — flatcontainer model checker (bounded-exhaustive exploration of the real code).
 
-mod alloc_count;
-mod catalogue;
-mod engine;
-mod m_alloc;
-mod m_clone;
-mod m_dict;
-mod m_huff;
-mod m_index;
-mod m_life;
-mod m_stack;
-mod props;
-mod selftest;
-mod spec;
-
-use engine::{Report, ViolationRec};
+use fcmc::engine::{self, Report, ViolationRec};
+use fcmc::{alloc_count, props, selftest, Job, Mode};
 use serde_json::json;
 use std::collections::BTreeMap;
 use std::sync::Mutex;
@@ -22,18 +9,6 @@ use std::time::Instant;
 
 #[global_allocator]
 static GLOBAL: alloc_count::Counting = alloc_count::Counting;
-
-pub enum Mode {
-    Bfs(engine::BfsCfg),
-    Dev(engine::DevCfg),
-}
-
-pub struct Job {
-    pub factory: Box<dyn Fn() -> Box<dyn engine::Machine> + Sync + Send>,
-    pub mode: Mode,
-    /// big jobs run alone and parallelise internally; small jobs run concurrently, single-threaded
-    pub big: bool,
-}
 
 fn profile_name() -> &'static str {
     if cfg!(debug_assertions) {
